@@ -353,6 +353,11 @@ def _eval_edit_media(chk, rid, m):
         def append(self, val, typ=None, *a, **k):  # Seq.append(val, typ)
             list.append(self, Record(value=val, type=typ))
 
+        def __setitem__(self, i, v):  # Seq.__setitem__(i, (val, typ, line, col))
+            if isinstance(v, tuple) and len(v) == 4:
+                v = Record(value=v[0], type=v[1])
+            list.__setitem__(self, i, v)
+
     def mk(kinds):
         sq = SeqM()
         for i, k in enumerate(kinds):
@@ -413,6 +418,61 @@ def _eval_edit_media(chk, rid, m):
                 bad.append(f'deleteMedium({old!r}) from {kinds}: {got}, prescribed {want}')
     chk.extra['media_edit_cases_evaluated'] = n
     chk.ob(rid, ML, 'MediaList.appendMedium', f"all {n} edit cases: nothing is added to a list that holds 'all'; a type already present moves to the end; appending 'all' clears the list; queries without a simple type never displace another; deleteMedium removes the first query of the (normalised) type and reports NotFoundErr otherwise (by evaluation, through the class's own __iter__/__delitem__)", not bad, f'{len(bad)} cases differ, e.g. ' + '; '.join(bad[:2]))
+
+    # -- no hidden state: after any short history of edits the list behaves like a fresh list with the same items
+    import itertools
+
+    def receiver(sq):
+        logged = []
+        me = _with_init(chk, m, Record(_seq=sq, _checkReadonly=lambda: None, _log=Record(info=lambda *a, **k: logged.append(('info', k.get('error'))), error=lambda *a, **k: logged.append(('error', k.get('error'))))))
+        me._clearSeq = lambda sq=sq: sq.clear()
+        me.logged = logged
+        return me
+
+    def apply(me, op):
+        kind, arg = op
+        intr = {'normalize': lambda x: x.lower() if x else x, 'MediaQuery': MQ, 'xml': Record(dom=Record(InvalidModificationErr='InvalidModificationErr', NotFoundErr='NotFoundErr')),
+                'self._log.info': me._log.info, 'self._log.error': me._log.error}
+        if kind == 'append':
+            return Evaluator(m.get('MediaList.appendMedium'), intrinsics=intr, model_types=(SeqM,), module=m, cls='MediaList').run(self=me, newMedium=MQ(mediaType=arg, mediaText=arg, wellformed=True, tag=f'+{arg}'))
+        if kind == 'delete':
+            return Evaluator(m.get('MediaList.deleteMedium'), intrinsics=intr, model_types=(SeqM,), module=m, cls='MediaList').run(self=me, oldMedium=arg)
+        return Evaluator(m.get('MediaList.__setitem__'), intrinsics=intr, model_types=(SeqM,), module=m, cls='MediaList').run(self=me, index=0, newMedium=MQ(mediaType=arg, mediaText=arg, wellformed=True, tag=f'={arg}'))
+
+    def clone(sq):
+        c = SeqM()
+        for it in sq:
+            list.append(c, it)
+        return c
+
+    ops = [('append', 'tv'), ('append', 'all'), ('append', 'print'), ('delete', 'tv'), ('delete', 'all'), ('set0', 'print'), ('set0', 'all')]
+    hn = 0
+    hbad = []
+    for kinds in ([], ['all'], ['tv'], ['tv', 'print']):
+        for hist_ in itertools.product(ops, repeat=2):
+            me = receiver(mk(kinds))
+            broken = False
+            for op in hist_:
+                r = apply(me, op)
+                if isinstance(r, Raised) and op[0] == 'set0' and not len(me._seq):
+                    broken = True  # item assignment on an empty list: IndexError, nothing to compare
+                    break
+            if broken:
+                continue
+            fresh = receiver(clone(me._seq))
+            for probe in ops:
+                a, b = receiver(clone(me._seq)), receiver(clone(fresh._seq))
+                # the object with the history keeps whatever private state the history left; the fresh one has none
+                for k, v in vars(me).items():
+                    if k not in ('_seq', '_log', '_clearSeq', 'logged', '_checkReadonly'):
+                        setattr(a, k, v)
+                ra, rb = apply(a, probe), apply(b, probe)
+                hn += 1
+                if (repr(ra), tags(a._seq), a.logged) != (repr(rb), tags(b._seq), b.logged):
+                    hbad.append(f'{kinds} after {list(hist_)}: {probe} gives {ra!r} {tags(a._seq)}, on a fresh list with the same items {rb!r} {tags(b._seq)}')
+    chk.extra['media_history_probes'] = hn
+    chk.ob(rid, ML, 'MediaList', f'all {hn} probes: after any two edits (append, delete, item assignment - accepted or refused) a further edit behaves as on a fresh list with the same items', not hbad,
+           f'{len(hbad)} differ, e.g. ' + ' | '.join(hbad[:2]) + ' - the list keeps state besides its items (a cache that an edit path does not refresh)')
 
 
 def r17f(chk, rid='R17.f'):
